@@ -1,11 +1,303 @@
-(* C18 - array-cube-only statistics equal the per-cell textbook statistic (theorems added below). *)
-From Coq Require Import ZArith QArith Qcanon List Bool.
-From Catii Require Import Cube.XStats.
+(* C18 - array-cube-only statistics equal the per-cell textbook statistic.
+   Model of the code: Cube/XStats.v (exact rationals, None = non-finite double); textbook statistics:
+   Cube/XStatsSpec.v; per-cell kernels: Cube/XStatsCell.v.  Only `exact` here. *)
+From Coq Require Import ZArith QArith Qcanon List Bool Sorting.Permutation.
+From Catii Require Import Cube.XStats Cube.XStatsSpec Cube.XStatsCell Cube.XStatsBase Cube.XStatsGroup
+  Cube.XStatsStddev Cube.XStatsMinMax Cube.XStatsQuantile Cube.XStatsCov Cube.XStatsWQ Cube.XStatsWQRange
+  Cube.XStatsFormats.
 Import ListNotations.
 Open Scope Z_scope.
 
-Example C18_model_runs :
-  map (fun vm => (option_map this (fst vm), snd vm))
-      (stddev false false 2 [mk_srow 0 (Some (Q2Qc 1)) None; mk_srow 0 (Some (Q2Qc 3)) None; mk_srow 1 (Some (Q2Qc 5)) None])
-  = [(Some 2%Q, false); (None, true)].
-Proof. vm_compute. reflexivity. Qed.
+(* ---------------------------------------------------------------- group_spec *)
+(* for ANY kernel K applied per flat cell: the entry of the cell with category tuple c is K of exactly the
+   rows whose tuple is c, in row order (coordinates = value . stride identify in-range tuples) *)
+Theorem C18_group_spec : forall (A R : Type) (cats : A -> list Z) (K : list A -> R) exts rows c d,
+  Forall (fun r => within exts (cats r)) rows -> within exts c ->
+  nth (Z.to_nat (coordinate exts c)) (per_cell (fun r => coordinate exts (cats r)) K (prodZ exts) rows) d
+  = K (filter (fun r => tuple_eqb (cats r) c) rows).
+Proof. exact @group_spec. Qed.
+Print Assumptions C18_group_spec.
+
+(* the same for an abstract cell-coordinate function [key : row -> flat cell] *)
+Theorem C18_group_abstract : forall (A R : Type) (key : A -> Z) (K : list A -> R) size rows u d,
+  0 <= u < size ->
+  nth (Z.to_nat u) (per_cell key K size rows) d = K (filter (fun r => Z.eqb (key r) u) rows).
+Proof. exact @per_cell_nth. Qed.
+Print Assumptions C18_group_abstract.
+
+(* the coordinate map is a bijection between in-range tuples and flat cells *)
+Theorem C18_coordinate_bijection : forall exts,
+  (forall a b, within exts a -> within exts b -> coordinate exts a = coordinate exts b -> a = b) /\
+  (forall a, within exts a -> 0 <= coordinate exts a < prodZ exts) /\
+  (forall u, Forall (fun e => 0 < e) exts -> 0 <= u < prodZ exts ->
+             within exts (decode exts u) /\ coordinate exts (decode exts u) = u).
+Proof.
+  exact (fun exts => conj (coordinate_inj exts) (conj (coordinate_range exts) (coordinate_surj exts))).
+Qed.
+Print Assumptions C18_coordinate_bijection.
+
+(* every statistic of the array code IS such a per-cell kernel (stddev: although the code works with
+   whole-array bincounts and re-binned deviations) *)
+Theorem C18_group_stddev : forall weighted ign size rows,
+  stddev weighted ign size rows = per_cell rc (stddev_cell weighted ign) size rows.
+Proof. exact stddev_group. Qed.
+Print Assumptions C18_group_stddev.
+Theorem C18_group_quantile : forall weighted ign p size rows,
+  quantile weighted ign p size rows = per_cell rc (quantile_cell weighted ign p) size rows.
+Proof. exact quantile_group. Qed.
+Print Assumptions C18_group_quantile.
+Theorem C18_group_wquantile : forall weighted ign p size perms rows u d,
+  length perms = Z.to_nat size -> 0 <= u < size ->
+  nth (Z.to_nat u) (wquantile weighted ign p size perms rows) d
+  = wquantile_cell weighted ign p (nth (Z.to_nat u) perms []) (cell_s u rows).
+Proof. exact wquantile_group. Qed.
+Print Assumptions C18_group_wquantile.
+Theorem C18_group_minmax : forall ign mx size rows,
+  minmax ign mx size rows = per_cell rc (minmax_seg ign mx) size rows.
+Proof. exact minmax_group. Qed.
+Print Assumptions C18_group_minmax.
+Theorem C18_group_covariance : forall weighted ign ncol size rows,
+  covariance weighted ign ncol size rows
+  = per_cell mc (fun seg => flat_map (fun i => map (fun j => cov_seg weighted ign i j seg) (seq 0 ncol)) (seq 0 ncol))
+             size rows.
+Proof. exact covariance_group. Qed.
+Print Assumptions C18_group_covariance.
+Theorem C18_group_corrcoef : forall weighted ign ncol size rows,
+  corrcoef weighted ign ncol size rows
+  = per_cell mc (fun seg => flat_map (fun i => map (fun j => corr_seg weighted ign i j seg) (seq 0 ncol)) (seq 0 ncol))
+             size rows.
+Proof. exact corrcoef_group. Qed.
+Print Assumptions C18_group_corrcoef.
+
+(* ---------------------------------------------------------------- stddev_spec *)
+(* the model returns the VARIANCE (sqrt is not modelled).  For every cell u: the mask is the rule of C04
+   or fewer than two valid rows; an unmasked value is the reliability-weighted sample variance
+   (sum w (x - mu_w)^2 / sum w) * n/(n-1) of the valid rows of the cell, which without weights is the
+   ddof=1 sample variance.  `wtotal xw <> 0`: the weights of the valid rows do not sum to zero. *)
+Theorem C18_stddev_spec : forall weighted ign size rows u d,
+  0 <= u < size ->
+  let seg := cell_s u rows in
+  let V := filter (svalid weighted) seg in
+  let xw := map (xw_of weighted) V in
+  let out := nth (Z.to_nat u) (stddev weighted ign size rows) d in
+  snd out = missing_rule ign (map (svalid weighted) seg) || (lenZ V <? 2) /\
+  (snd out = false -> wtotal xw <> 0%Qc -> fst out = Some (rel_var xw)) /\
+  (snd out = false -> weighted = false ->
+     fst out = Some (sample_var (map fst xw)) /\ wtotal xw = ofZ (lenZ V) /\ wtotal xw <> 0%Qc).
+Proof. exact stddev_spec. Qed.
+Print Assumptions C18_stddev_spec.
+
+(* when missing values are ignored the cell's result is a function of its VALID rows only *)
+Theorem C18_stddev_ign_valid_only : forall weighted seg,
+  stddev_cell weighted true seg = stddev_cell weighted true (filter (svalid weighted) seg).
+Proof. exact stddev_cell_ign_valid_only. Qed.
+Print Assumptions C18_stddev_ign_valid_only.
+
+(* ---------------------------------------------------------------- quantile_lin *)
+Theorem C18_quantile_lin : forall xs p,
+  xs <> [] -> (0 <= p)%Qc -> (p <= 1)%Qc -> is_lin_quantile xs p (lin_quantile xs p).
+Proof. exact quantile_lin. Qed.
+Print Assumptions C18_quantile_lin.
+(* is_lin_quantile determines the value (sorted permutation and bracket are unique) *)
+Theorem C18_lin_quantile_unique : forall xs p q q',
+  is_lin_quantile xs p q -> is_lin_quantile xs p q' -> q = q'.
+Proof. exact is_lin_quantile_unique. Qed.
+Print Assumptions C18_lin_quantile_unique.
+Theorem C18_quantile_spec : forall weighted ign p size rows u d,
+  0 <= u < size -> (0 <= p)%Qc -> (p <= 1)%Qc ->
+  let seg := cell_s u rows in
+  let V := map (fun r => fst (xw_of weighted r)) (filter (svalid weighted) seg) in
+  let out := nth (Z.to_nat u) (quantile weighted ign p size rows) d in
+  (out = None <-> missing_rule ign (map (svalid weighted) seg) = true) /\
+  (forall q, out = Some q -> is_lin_quantile V p q).
+Proof. exact quantile_spec. Qed.
+Print Assumptions C18_quantile_spec.
+
+(* ---------------------------------------------------------------- minmax_spec *)
+Theorem C18_minmax_spec : forall ign mx size rows u d,
+  0 <= u < size ->
+  let seg := cell_s u rows in
+  let V := somes (map rx seg) in
+  let out := nth (Z.to_nat u) (minmax ign mx size rows) d in
+  (out = None <-> missing_rule ign (map ovalid seg) = true) /\
+  (forall m, out = Some m -> if mx then is_max m V else is_min m V).
+Proof. exact minmax_spec. Qed.
+Print Assumptions C18_minmax_spec.
+
+(* ---------------------------------------------------------------- weighted quantile *)
+(* [perm] is the argsort result of the cell (a parameter: NumPy does not specify the order of ties);
+   C18_group_wquantile ties [wquantile_cell] to the whole-cube output *)
+(* wq_missing: rule of C04 with validity = value present AND weight present; under propagation ANY
+   missing value or weight of the cell, wherever it sorts (F20) *)
+Theorem C18_wq_missing : forall ign p perm seg,
+  is_perm_b perm (length seg) = true ->
+  missing_rule ign (map (svalid true) seg) = true ->
+  wquantile_cell true ign p perm seg = None.
+Proof. exact wq_missing. Qed.
+Print Assumptions C18_wq_missing.
+(* wq_scale: w -> c*w, c > 0 *)
+Theorem C18_wq_scale : forall c ign p perm seg,
+  (0 < c)%Qc ->
+  wquantile_cell true ign p perm (map (scale_w c) seg) = wquantile_cell true ign p perm seg.
+Proof. exact wq_scale. Qed.
+Print Assumptions C18_wq_scale.
+(* wq_range: defined and min <= q <= max of the cell's valid values (positive weights, 0 <= p <= 1) *)
+Theorem C18_wq_range : forall ign p perm seg,
+  sort_perm_ok perm (wq_seg true seg) = true ->
+  (0 <= p)%Qc -> (p <= 1)%Qc -> pos_weights seg ->
+  missing_rule ign (map (svalid true) seg) = false ->
+  let V := map (fun r => fst (xw_of true r)) (filter (svalid true) seg) in
+  exists q, wquantile_cell true ign p perm seg = Some q /\
+            forall lo hi, is_min lo V -> is_max hi V -> (lo <= q)%Qc /\ (q <= hi)%Qc.
+Proof. exact wq_range. Qed.
+Print Assumptions C18_wq_range.
+
+(* ---------------------------------------------------------------- covariance / correlation *)
+(* entry (i, j) of cell u: rows used = complete rows of the cell when ignoring, all rows otherwise;
+   missing with fewer than two used rows or when a used row lacks column i, column j or the weight;
+   otherwise the (reliability-weighted: numpy aweights) covariance of the used rows *)
+Theorem C18_cov_spec : forall weighted ign ncol size rows u i j d,
+  0 <= u < size -> (i < ncol)%nat -> (j < ncol)%nat ->
+  let seg0 := cell_m u rows in
+  let used := mused weighted ign seg0 in
+  let T := map (xyw_of weighted i j) used in
+  let out := nth (i * ncol + j) (nth (Z.to_nat u) (covariance weighted ign ncol size rows) d) None in
+  (lenZ used < 2 -> out = None) /\
+  ((exists r, In r used /\ pair_valid weighted i j r = false) -> out = None) /\
+  (Forall (fun r => pair_valid weighted i j r = true) used -> 2 <= lenZ used ->
+     if weighted
+     then tV1 T <> 0%Qc -> (tV1 T - tV2 T / tV1 T)%Qc <> 0%Qc -> out = Some (cov_w T)
+     else out = Some (cov_u (map fst T))).
+Proof. exact cov_spec. Qed.
+Print Assumptions C18_cov_spec.
+Theorem C18_cov_used_rows : forall weighted ign seg0,
+  (ign = true -> mused weighted ign seg0 = filter (complete weighted) seg0 /\
+                 forall r i j, In r (mused weighted ign seg0) -> (i < length (mxs r))%nat -> (j < length (mxs r))%nat ->
+                               pair_valid weighted i j r = true) /\
+  (ign = false -> mused weighted ign seg0 = seg0).
+Proof. exact cov_used_rows. Qed.
+Print Assumptions C18_cov_used_rows.
+Theorem C18_complete_rows : forall weighted r, mxs r <> [] -> complete weighted r = row_complete weighted r.
+Proof. exact complete_row_complete. Qed.
+Print Assumptions C18_complete_rows.
+(* correlation: the model returns (c_ij, c_ii, c_jj) (sqrt not modelled) *)
+Theorem C18_corr_missing_spec : forall weighted ign ncol size rows u i j d,
+  0 <= u < size -> (i < ncol)%nat -> (j < ncol)%nat ->
+  let used := mused weighted ign (cell_m u rows) in
+  let out := nth (i * ncol + j) (nth (Z.to_nat u) (corrcoef weighted ign ncol size rows) d) None in
+  (lenZ used < 2 -> out = None) /\
+  ((exists r, In r used /\ pair_valid weighted i j r = false) -> out = None) /\
+  (forall cij cii cjj, out = Some (cij, cii, cjj) ->
+     npcov weighted used i j = Some cij /\ npcov weighted used i i = Some cii /\ npcov weighted used j j = Some cjj /\
+     (cii * cjj)%Qc <> 0%Qc /\ Forall (fun r => pair_valid weighted i j r = true) used /\ 2 <= lenZ used).
+Proof. exact corr_missing_spec. Qed.
+Print Assumptions C18_corr_missing_spec.
+(* ... and those three numbers are the textbook covariances of the used rows *)
+Theorem C18_npcov_unweighted : forall seg i j,
+  Forall (fun r => pair_valid false i j r = true) seg -> 2 <= lenZ seg ->
+  npcov false seg i j = Some (cov_u (map fst (map (xyw_of false i j) seg))).
+Proof. exact npcov_unweighted. Qed.
+Print Assumptions C18_npcov_unweighted.
+
+(* ---------------------------------------------------------------- report and input formats *)
+Theorem C18_formats_agree_iff : forall s vm, formats_agree s vm <-> (snd vm = false -> is_some (fst vm) = true).
+Proof. exact formats_agree_iff. Qed.
+Print Assumptions C18_formats_agree_iff.
+Theorem C18_formats_of_nan : forall s v, formats_agree s (of_nan v).
+Proof. exact formats_of_nan. Qed.
+Print Assumptions C18_formats_of_nan.
+Theorem C18_formats_stddev : forall s weighted ign size rows u d,
+  0 <= u < size ->
+  (weighted = false \/
+   wtotal (map (xw_of weighted) (filter (svalid weighted) (cell_s u rows))) <> 0%Qc) ->
+  formats_agree s (nth (Z.to_nat u) (stddev weighted ign size rows) d).
+Proof. exact formats_stddev. Qed.
+Print Assumptions C18_formats_stddev.
+Theorem C18_input_hidden_irrelevant : forall vals vals' valid,
+  length vals = length vals' ->
+  (forall i, nth i valid false = true -> nth i vals 0%Qc = nth i vals' 0%Qc) ->
+  normalize vals valid = normalize vals' valid.
+Proof. exact normalize_hidden_irrelevant. Qed.
+Print Assumptions C18_input_hidden_irrelevant.
+Theorem C18_input_nan_marked : forall l : list F, normalize (map unF l) (map is_some l) = l.
+Proof. exact normalize_nan_marked. Qed.
+Print Assumptions C18_input_nan_marked.
+
+(* ---------------------------------------------------------------- non-vacuity *)
+Definition q (n d : Z) : F := Some (Q2Qc (n # Z.to_pos d)).
+Definition showF (v : F) : option Q := option_map this v.
+
+(* 2 x 3 cube, tuples -> coordinates; rows of cell (1, 2) *)
+Example C18_ex_group :
+  let rows := [[1; 2]; [0; 1]; [1; 2]; [1; 0]] in
+  Forall (fun r => within [2; 3] r) rows /\ within [2; 3] [1; 2] /\ coordinate [2; 3] [1; 2] = 5 /\
+  nth 5 (per_cell (fun r => coordinate [2; 3] r) (@length (list Z)) (prodZ [2; 3]) rows) 0%nat = 2%nat.
+Proof. vm_compute. repeat split; repeat constructor; discriminate. Qed.
+
+(* weighted stddev: cell 0 has rows (1, w 1), (3, w 3), (missing), cell 1 a single row, cell 2 none *)
+Example C18_ex_stddev :
+  let rows := [mk_srow 0 (q 1 1) (q 1 1); mk_srow 1 (q 5 1) (q 2 1); mk_srow 0 (q 3 1) (q 3 1); mk_srow 0 None (q 1 1)] in
+  map (fun vm => (showF (fst vm), snd vm)) (stddev true true 3 rows) = [(Some (3 # 2)%Q, false); (None, true); (None, true)] /\
+  map snd (stddev true false 3 rows) = [true; true; true] /\
+  wtotal (map (xw_of true) (filter (svalid true) (cell_s 0 rows))) <> 0%Qc /\
+  showF (Some (rel_var (map (xw_of true) (filter (svalid true) (cell_s 0 rows))))) = Some (3 # 2)%Q.
+Proof. vm_compute. repeat split; discriminate. Qed.
+
+Example C18_ex_stddev_unweighted :
+  map (fun vm => (showF (fst vm), snd vm))
+      (stddev false false 2 [mk_srow 0 (q 1 1) None; mk_srow 0 (q 3 1) None; mk_srow 1 (q 5 1) None])
+  = [(Some 2%Q, false); (None, true)] /\
+  showF (Some (sample_var [Q2Qc 1; Q2Qc 3])) = Some 2%Q.
+Proof. vm_compute. split; reflexivity. Qed.
+
+(* quantile 1/4 of {4, 1, 3} (+ one missing row, ignored) = 1 + (3 - 1) * 1/2 = 2 *)
+Example C18_ex_quantile :
+  let rows := [mk_srow 0 (q 4 1) None; mk_srow 0 None None; mk_srow 0 (q 1 1) None; mk_srow 0 (q 3 1) None] in
+  map showF (quantile false true (Q2Qc (1 # 4)) 1 rows) = [Some 2%Q] /\
+  map showF (quantile false false (Q2Qc (1 # 4)) 1 rows) = [None] /\
+  missing_rule true (map (svalid false) (cell_s 0 rows)) = false /\
+  missing_rule false (map (svalid false) (cell_s 0 rows)) = true.
+Proof. vm_compute. repeat split; reflexivity. Qed.
+
+Example C18_ex_minmax :
+  let rows := [mk_srow 0 (q 4 1) None; mk_srow 1 None None; mk_srow 0 (q (-1) 2) None; mk_srow 1 (q 3 1) None] in
+  map showF (minmax true true 3 rows) = [Some 4%Q; Some 3%Q; None] /\
+  map showF (minmax false false 3 rows) = [Some (-1 # 2)%Q; None; None].
+Proof. vm_compute. split; reflexivity. Qed.
+
+(* weighted quantile: values 3, 1, (missing value), 2 with weights 1, 2, 1, 1; the missing value sorts last
+   (argsort = [1; 3; 0; 2]); ignored -> 7/5 at p = 3/5, within [1, 3]; propagated -> missing (F20);
+   a missing WEIGHT counts as well; rescaling the weights by 3 changes nothing *)
+Example C18_ex_wquantile :
+  let seg := [mk_srow 0 (q 3 1) (q 1 1); mk_srow 0 (q 1 1) (q 2 1); mk_srow 0 None (q 1 1); mk_srow 0 (q 2 1) (q 1 1)] in
+  let segw := [mk_srow 0 (q 3 1) (q 1 1); mk_srow 0 (q 1 1) None] in
+  let perm := [1; 3; 0; 2]%nat in
+  sort_perm_ok perm (wq_seg true seg) = true /\
+  showF (wquantile_cell true true (Q2Qc (3 # 5)) perm seg) = Some (7 # 5)%Q /\
+  wquantile_cell true false (Q2Qc (1 # 2)) perm seg = None /\
+  missing_rule false (map (svalid true) seg) = true /\ missing_rule true (map (svalid true) seg) = false /\
+  sort_perm_ok [0; 1]%nat (wq_seg true segw) = true /\
+  wquantile_cell true false (Q2Qc 0) [0; 1]%nat segw = None /\
+  showF (wquantile_cell true true (Q2Qc (3 # 5)) perm (map (scale_w (Q2Qc 3)) seg)) = Some (7 # 5)%Q.
+Proof. vm_compute. repeat split; reflexivity. Qed.
+
+(* covariance of columns (1,2), (3,1), (2,6) with weights 1, 2, 1 and a row whose second column is missing *)
+Example C18_ex_cov :
+  let rows := [mk_mrow 0 [q 1 1; q 2 1] (q 1 1); mk_mrow 0 [q 3 1; q 1 1] (q 2 1); mk_mrow 0 [q 2 1; q 6 1] (q 1 1);
+               mk_mrow 0 [q 5 1; None] (q 1 1)] in
+  map (map showF) (covariance true true 2 1 rows) = [[Some (11 # 10)%Q; Some (-1)%Q; Some (-1)%Q; Some (34 # 5)%Q]] /\
+  map (map showF) (covariance true false 2 1 rows) = [[Some (22 # 9)%Q; None; None; None]] /\
+  map (map showF) (covariance false true 2 1 rows) = [[Some 1%Q; Some (-1 # 2)%Q; Some (-1 # 2)%Q; Some 7%Q]] /\
+  showF (Some (cov_w (map (xyw_of true 0 1) (mused true true (cell_m 0 rows))))) = Some (-1)%Q /\
+  showF (Some (cov_u (map fst (map (xyw_of false 0 1) (mused false true (cell_m 0 rows)))))) = Some (-1 # 2)%Q /\
+  map (map (option_map (fun t : Qc * Qc * Qc => (this (fst (fst t)), this (snd (fst t)), this (snd t))))) (corrcoef false false 2 1 rows)
+  = [[Some (35 # 12, 35 # 12, 35 # 12)%Q; None; None; None]].
+Proof. vm_compute. repeat split; reflexivity. Qed.
+
+Example C18_ex_formats :
+  let rows := [mk_srow 0 (q 1 1) None; mk_srow 0 (q 3 1) None; mk_srow 1 (q 5 1) None] in
+  map (fun vm => showF (nan_format vm)) (stddev false false 2 rows) = [Some 2%Q; None] /\
+  map (fun vm => (showF (fst (pair_format (Q2Qc (-7)) vm)), snd (pair_format (Q2Qc (-7)) vm))) (stddev false false 2 rows)
+  = [(Some 2%Q, true); (Some (-7 # 1)%Q, false)] /\
+  map showF (normalize [Q2Qc 1; Q2Qc 12345; Q2Qc 3] [true; false; true]) = [Some 1%Q; None; Some 3%Q].
+Proof. vm_compute. repeat split; reflexivity. Qed.
